@@ -1407,7 +1407,7 @@ func (cs *State) enterPrecommit(height int64, round int32) {
 	}
 
 	// If +2/3 prevoted for proposal block, stage and precommit it
-	if cs.ProposalBlock.HashesTo(blockID.Hash) {
+	if cs.proposalBlockIs(blockID) {
 		logger.Debug("precommit step; +2/3 prevoted proposal block; locking", "hash", blockID.Hash)
 
 		// Validate the block.
@@ -1521,7 +1521,7 @@ func (cs *State) enterCommit(height int64, commitRound int32) {
 	}
 
 	// If we don't have the block being committed, set up to get it.
-	if !cs.ProposalBlock.HashesTo(blockID.Hash) {
+	if !cs.proposalBlockIs(blockID) {
 		if !cs.ProposalBlockParts.HasHeader(blockID.PartSetHeader) {
 			logger.Info(
 				"commit is for a block we do not know about; set ProposalBlock=nil",
@@ -1543,6 +1543,16 @@ func (cs *State) enterCommit(height int64, commitRound int32) {
 	}
 }
 
+// proposalBlockIs reports whether the proposal block is the block with the given
+// BlockID: it hashes to blockID.Hash AND it was assembled from the part set that
+// blockID names. The block hash does not bind the serialization of a block, so
+// the same block can be gossiped under two part-set headers; votes and commits
+// are for one of them. A block held under another header has to be fetched
+// again under the voted one (it is stored, and served to peers, with its parts).
+func (cs *State) proposalBlockIs(blockID types.BlockID) bool {
+	return cs.ProposalBlock.HashesTo(blockID.Hash) && cs.ProposalBlockParts.HasHeader(blockID.PartSetHeader)
+}
+
 // If we have the block AND +2/3 commits for it, finalize.
 func (cs *State) tryFinalizeCommit(height int64) {
 	logger := cs.Logger.With("height", height)
@@ -1557,7 +1567,7 @@ func (cs *State) tryFinalizeCommit(height int64) {
 		return
 	}
 
-	if !cs.ProposalBlock.HashesTo(blockID.Hash) {
+	if !cs.proposalBlockIs(blockID) {
 		// TODO: this happens every time if we're not a validator (ugly logs)
 		// TODO: ^^ wait, why does it matter that we're a validator?
 		logger.Debug(
@@ -1921,7 +1931,7 @@ func (cs *State) handleCompleteProposal(blockHeight int64) {
 	prevotes := cs.Votes.Prevotes(cs.Round)
 	blockID, hasTwoThirds := prevotes.TwoThirdsMajority()
 	if hasTwoThirds && !blockID.IsZero() && (cs.ValidRound < cs.Round) {
-		if cs.ProposalBlock.HashesTo(blockID.Hash) {
+		if cs.proposalBlockIs(blockID) {
 			cs.Logger.Debug(
 				"updating valid block to new proposal block",
 				"valid_round", cs.Round,
@@ -2091,7 +2101,7 @@ func (cs *State) addVote(vote *types.Vote, peerID p2p.ID) (added bool, err error
 			// Update Valid* if we can.
 			// NOTE: our proposal block may be nil or not what received a polka..
 			if len(blockID.Hash) != 0 && (cs.ValidRound < vote.Round) && (vote.Round == cs.Round) {
-				if cs.ProposalBlock.HashesTo(blockID.Hash) {
+				if cs.proposalBlockIs(blockID) {
 					cs.Logger.Debug("updating valid block because of POL", "valid_round", cs.ValidRound, "pol_round", vote.Round)
 					cs.ValidRound = vote.Round
 					cs.ValidBlock = cs.ProposalBlock
